@@ -723,14 +723,21 @@ func (w *c05World) observe() (*c05Obs, error) {
 		}
 		served := -1
 		if cands == 1 {
-			hello, closeHello := doubles.Hello(nm)
-			tc, err := w.cfg.GetCertificate(hello)
-			closeHello()
-			if err == nil && tc != nil && len(tc.Certificate) > 0 {
-				if leaf, err := x509.ParseCertificate(tc.Certificate[0]); err == nil {
-					served = int(leaf.SerialNumber.Int64() - 101)
+			func() {
+				hello, closeHello := doubles.Hello(nm)
+				defer closeHello()
+				defer func() {
+					if r := recover(); r != nil {
+						served = 998 // the handshake panicked
+					}
+				}()
+				tc, err := w.cfg.GetCertificate(hello)
+				if err == nil && tc != nil && len(tc.Certificate) > 0 {
+					if leaf, err := x509.ParseCertificate(tc.Certificate[0]); err == nil {
+						served = int(leaf.SerialNumber.Int64() - 101)
+					}
 				}
-			}
+			}()
 		}
 		o.Served = append(o.Served, served)
 	}
